@@ -35,6 +35,8 @@ func init() {
 			}},
 			{ID: "C04.R7", Text: "what is exposed is the live position: no reader (API, metrics, checkpoint) retains a reference to the position map in a field of its own", Run: noRetainedPositionMap},
 			{ID: "C04.R8", Text: "written by the next save: a position that moved with dirty=true is marked (whatever the mark's previous value) and raises the save flag (same rules as C05.R1, C05.R2)", Run: func(c *Ctx, id string) { c05r1(c, id); c05r2(c, id) }},
+			{ID: "C04.R9", Text: "the position map is a map: wrapper.ConcurrentSwissMap forwards Load/Store/StoreIf/Delete/Count to the wrapped concurrent map with its own arguments and untouched results, and Range visits every entry until the callback returns false", Run: wrapperFaithful},
+			{ID: "C04.R10", Text: "the tracked position follows what is settled: the function stored into ListenerContext.Ack calls the position writer exactly once on every path with dirty=true (Commit reaches Checkpoint.Save), every non-document listener arm and the reserved-key branch call it exactly once", Run: func(c *Ctx, id string) { ackMoves(c, id); absorbMoves(c, id) }},
 			{ID: "C04.R4", Text: "the position map has no other writer (same rule as C01.R1)", Run: c01r1},
 		},
 	})
